@@ -1,6 +1,15 @@
 import CV.Proofs.RangeDecTotal
 /-!
 # C08 — Inspecting a range encoder is a no-op (component `range`)
+
+`Fits c e k`: the 64-bit `usize` counters have room for `k` more symbols (see C02_range).
+
+**Not covered:** `RangeEncoder::clear` is not an operation of these histories.  It resets
+`bulk` and `state` but leaves a stale `situation` behind, so after `clear` on an encoder that
+was holding words back the invariant `Inv` does not hold (observed:
+`range 8 10 | raw - e500 6400 2 7e | clear | … | enc 8 8 0 80 | export` exports `7e,ff,0`;
+recorded in DESIGN as outside the given properties).  The model transcribes `clear` as it is
+and the correspondence runs include it.
 -/
 namespace CV.Range
 
@@ -8,23 +17,26 @@ namespace CV.Range
     return at that moment, and the encoder afterwards is exactly the encoder before — for
     every state satisfying the invariant (empty, right after a word boundary, with a non-empty
     sink, while words are held back). -/
-theorem C08_range_guard_noop {c : Cfg} (hc : RValid c) {e : Encoder} (hI : Inv c e) :
+theorem C08_range_guard_noop {c : Cfg} (hc : RValid c) {e : Encoder} (hI : Inv c e)
+    (hf : Fits c e 0) :
     ∃ ws, intoCompressed c e = .ok ws ∧ getCompressed c e = .ok (ws, e) :=
-  ⟨_, intoCompressed_eq hc hI, getCompressed_eq hc hI⟩
+  ⟨_, intoCompressed_eq hc hI, getCompressed_eq hc hI hf⟩
 
 /-- `decoder()`: a decoder over what sealing now would return; the encoder is untouched -/
-theorem C08_range_decoder_noop {c : Cfg} (hc : RValid c) {e : Encoder} (hI : Inv c e) :
+theorem C08_range_decoder_noop {c : Cfg} (hc : RValid c) {e : Encoder} (hI : Inv c e)
+    (hf : Fits c e 0) :
     ∃ ws d, intoCompressed c e = .ok ws ∧ Decoder.fromCompressed c ws = .ok d ∧
       tempDecoder c e = .ok (d, e) := by
-  obtain ⟨d, hd, hf⟩ := tempDecoder_eq hc hI
-  exact ⟨_, d, intoCompressed_eq hc hI, hf, hd⟩
+  obtain ⟨d, hd, hfc⟩ := tempDecoder_eq hc hI hf
+  exact ⟨_, d, intoCompressed_eq hc hI, hfc, hd⟩
 
 /-- `num_seal_words()` is the number of words `seal` appends, `unseal ∘ seal = id` -/
-theorem C08_range_unseal_seal {c : Cfg} (hc : RValid c) {e : Encoder} (hI : Inv c e) :
+theorem C08_range_unseal_seal {c : Cfg} (hc : RValid c) {e : Encoder} (hI : Inv c e)
+    (hf : Fits c e 0) :
     ∃ e', sealEnc c e = .ok e' ∧ numSealWords c e = .ok (e'.bulk.length - e.bulk.length) ∧
       unsealEnc c e' = .ok e := by
-  refine ⟨_, sealEnc_eq hc hI, ?_, unseal_seal hc hI⟩
-  rw [numSealWords_eq hc hI]
+  refine ⟨_, sealEnc_eq hc hI, ?_, unseal_seal hc hI hf⟩
+  rw [numSealWords_eq hc hI hf]
   simp
 
 /-- **inspect erasure**: in any history of encodes with inspections (`get_compressed`,
@@ -32,11 +44,13 @@ theorem C08_range_unseal_seal {c : Cfg} (hc : RValid c) {e : Encoder} (hI : Inv 
     number of times, the final encoder — hence everything it will ever output — is that of the
     history without the inspections. -/
 theorem C08_range_inspect_erasure {Sym : Type} {c : Cfg} (hc : RValid c) (ops : List (Op Sym))
-    (e : Encoder) (hI : Inv c e) (hv : ∀ x ∈ encSteps ops, x.Valid c) :
+    (e : Encoder) (hI : Inv c e) (hf : Fits c e (encSteps ops).length)
+    (hv : ∀ x ∈ encSteps ops, x.Valid c) :
     runOps c e ops = encodeMsg c e (encSteps ops) :=
-  inspect_erasure hc ops e hI hv
+  inspect_erasure hc ops e hI hf hv
 
 example : Inv exCfg exInverted := exInverted_inv
+example : Fits exCfg exInverted 3 := by decide
 example : getCompressed exCfg exInverted = .ok ([126, 229], exInverted) := by decide
 example : ∀ x ∈ encSteps [Op.getCompressed, Op.enc exMsg[0], Op.decoder, Op.enc exMsg[1], Op.numWords],
     x.Valid exCfg := by
